@@ -1,10 +1,17 @@
 #!/bin/bash
 # usage: replay.sh <replay file>   — rebuilds against the current tree and replays a violation file
 set -u
+FILE="$(readlink -f "$1")"
 cd "$(dirname "$0")"
 export GOFLAGS=-mod=mod GOPROXY=off GOSUMDB=off GOTOOLCHAIN=local CGO_ENABLED=1
-mkdir -p bin
-BIN="bin/gfsim.replay.$$"
-go build -o "$BIN" ./cmd/gfsim || exit 2
-VERIF_DIR="$(pwd)" "./$BIN" replay "$1"; code=$?
-rm -f "$BIN"; exit $code
+export VERIF_REPO="${VERIF_REPO:-/repo}"
+. ./build_lib.sh
+WORK="$(mktemp -d /tmp/gfsim-replay-XXXXXX)"
+trap 'rm -rf "$WORK"' EXIT
+build_plain "$WORK" || exit 2
+CHECK="$(python3 -c 'import json,sys; print(json.load(open(sys.argv[1])).get("check",""))' "$FILE")"
+case "$CHECK" in
+  C08m3) build_instrumented "$WORK" C08 || exit 2 ;;
+  C09)   build_instrumented "$WORK" C09 || exit 2 ;;
+esac
+VERIF_DIR="$(pwd)" "$WORK/gfsim" replay "$FILE"
